@@ -215,18 +215,20 @@ delivered, pending at a worker, or still ahead of the cursor), payload fidelity,
 and the matcher-stage bookkeeping. -/
 structure Inv (e : Env) (s : St) : Prop where
   start_le : s.start0 ≤ s.cursor
-  count : ∀ i, cnt s.delivered i + pend s.workers i + inR s.cursor s.end_ i = inR s.start0 s.end_ i
+  count : ∀ i, cnt s.delivered i + pend s.workers i + acnt s.abandoned i + inR s.cursor s.end_ i = inR s.start0 s.end_ i
   payload : ∀ x ∈ s.delivered, x.2 = e.src x.1
   nonempty : ∀ (w lo hi : Nat), s.workers[w]? = some (some (lo, hi)) → lo < hi
   stage2 : ∀ b x, wsum (indC b x) s.called + osum (ind e b x) s.matchers + wsum (ind e b x) s.queue
                 = wsum (ind e b x) s.delivered
   cursor_le : s.cursor ≤ s.end_ ∨ s.cursor = s.start0
   closed_ok : s.closed = true → s.stopReq = true ∨ ¬ (s.cursor < s.end_)
+  aband_ok : s.abandoned ≠ [] → s.cancelled = true
+  cancel_stop : s.cancelled = true → s.stopReq = true
 
 theorem inv_init (e : Env) (start end_ batch workers matchers : Nat) (c : Bool) :
     Inv e (init start end_ batch workers matchers c) := by
-  refine ⟨by simp [init], ?_, by simp [init], ?_, ?_, by simp [init], by simp [init]⟩
-  · intro i; simp only [init, cnt, pend_replicate_none]; omega
+  refine ⟨by simp [init], ?_, by simp [init], ?_, ?_, by simp [init], by simp [init], by simp [init], by simp [init]⟩
+  · intro i; simp only [init, cnt, acnt, pend_replicate_none]; omega
   · intro w lo hi h
     simp only [init, List.getElem?_replicate] at h
     split at h <;> simp at h
@@ -247,10 +249,10 @@ theorem inv_hand (e : Env) (s : St) (w : Nat) (h : Inv e s) : Inv e (step e s (.
   · rename_i hen
     simp only [handEnabled, Bool.and_eq_true, Bool.not_eq_true', decide_eq_true_eq, beq_iff_eq] at hen
     obtain ⟨⟨⟨hcl, hw⟩, hc⟩, hb⟩ := hen
-    obtain ⟨h1, h2, h3, h4, h5, h6, h7⟩ := h
+    obtain ⟨h1, h2, h3, h4, h5, h6, h7, h8, h9⟩ := h
     have hbe : s.cursor < batchEnd s ∧ batchEnd s ≤ s.end_ := by
       simp only [batchEnd]; omega
-    refine ⟨by simp only; omega, ?_, h3, ?_, h5, by simp only; omega, by simp only [hcl]; simp⟩
+    refine ⟨by simp only; omega, ?_, h3, ?_, h5, by simp only; omega, by simp only [hcl]; simp, h8, h9⟩
     · intro i
       have := h2 i
       have hp := pend_set s.workers w none (some (s.cursor, batchEnd s)) i hw
@@ -271,8 +273,8 @@ theorem inv_hand (e : Env) (s : St) (w : Nat) (h : Inv e s) : Inv e (step e s (.
 theorem inv_deliver (e : Env) (s : St) (w lo hi k : Nat) (h : Inv e s)
     (hw : s.workers[w]? = some (some (lo, hi))) (hk1 : 1 ≤ k) (hk2 : lo + k ≤ hi) :
     Inv e (deliver e s w lo hi k) := by
-  obtain ⟨h1, h2, h3, h4, h5, h6, h7⟩ := h
-  refine ⟨h1, ?_, ?_, ?_, ?_, h6, h7⟩
+  obtain ⟨h1, h2, h3, h4, h5, h6, h7, h8, h9⟩ := h
+  refine ⟨h1, ?_, ?_, ?_, ?_, h6, h7, h8, h9⟩
   · intro i
     have := h2 i
     have hp := pend_set s.workers w (some (lo, hi)) (if lo + k < hi then some (lo + k, hi) else none) i hw
@@ -313,14 +315,36 @@ theorem inv_step (e : Env) (s : St) (op : Op) (hc : op.inContract = true) (h : I
     · exact h
   | respRaw w k => simp [Op.inContract] at hc
   | err w => exact h
+  | abandon w =>
+    simp only [step]
+    split
+    · rename_i r hw
+      split
+      · rename_i hcan
+        obtain ⟨lo, hi⟩ := r
+        obtain ⟨h1, h2, h3, h4, h5, h6, h7, h8, h9⟩ := h
+        refine ⟨h1, ?_, h3, ?_, h5, h6, h7, fun _ => hcan, h9⟩
+        · intro i
+          have := h2 i
+          have hp := pend_set s.workers w (some (lo, hi)) none i hw
+          simp only [one] at hp
+          simp only [acnt]
+          omega
+        · intro w' lo' hi' hh
+          simp only [getElem?_set_cases] at hh
+          split at hh
+          · simp at hh
+          · exact h4 w' lo' hi' hh
+      · exact h
+    · exact h
   | grow n =>
     simp only [step]
     split
     · rename_i hen
       simp only [growEnabled, Bool.and_eq_true, Bool.not_eq_true', decide_eq_true_eq] at hen
       obtain ⟨⟨⟨hcl, hcont⟩, hce⟩, hn⟩ := hen
-      obtain ⟨h1, h2, h3, h4, h5, h6, h7⟩ := h
-      refine ⟨h1, ?_, h3, h4, h5, by simp only; omega, by simp only [hcl]; simp⟩
+      obtain ⟨h1, h2, h3, h4, h5, h6, h7, h8, h9⟩ := h
+      refine ⟨h1, ?_, h3, h4, h5, by simp only; omega, by simp only [hcl]; simp, h8, h9⟩
       intro i
       have := h2 i
       simp only
@@ -328,17 +352,17 @@ theorem inv_step (e : Env) (s : St) (op : Op) (hc : op.inContract = true) (h : I
       have a2 := ite01 (s.start0) (s.end_) i
       have a3 := ite01 (s.cursor) (n) i
       have a4 := ite01 (s.start0) (n) i
-      have a5 : cnt s.delivered i + pend s.workers i = 0 ∨ i < s.end_ := by omega
+      have a5 : cnt s.delivered i + pend s.workers i + acnt s.abandoned i = 0 ∨ i < s.end_ := by omega
       omega
     · exact h
-  | stop => obtain ⟨h1, h2, h3, h4, h5, h6, h7⟩ := h; exact ⟨h1, h2, h3, h4, h5, h6, fun _ => Or.inl rfl⟩
-  | cancel => obtain ⟨h1, h2, h3, h4, h5, h6, h7⟩ := h; exact ⟨h1, h2, h3, h4, h5, h6, fun _ => Or.inl rfl⟩
+  | stop => obtain ⟨h1, h2, h3, h4, h5, h6, h7, h8, h9⟩ := h; exact ⟨h1, h2, h3, h4, h5, h6, fun _ => Or.inl rfl, h8, fun _ => rfl⟩
+  | cancel => obtain ⟨h1, h2, h3, h4, h5, h6, h7, h8, h9⟩ := h; exact ⟨h1, h2, h3, h4, h5, h6, fun _ => Or.inl rfl, fun _ => rfl, fun _ => rfl⟩
   | close =>
     simp only [step]
     split
     · rename_i hen
-      obtain ⟨h1, h2, h3, h4, h5, h6, h7⟩ := h
-      refine ⟨h1, h2, h3, h4, h5, h6, ?_⟩
+      obtain ⟨h1, h2, h3, h4, h5, h6, h7, h8, h9⟩ := h
+      refine ⟨h1, h2, h3, h4, h5, h6, ?_, h8, h9⟩
       intro _
       simp only [closeEnabled, Bool.and_eq_true, Bool.not_eq_true', Bool.or_eq_true, decide_eq_false_iff_not] at hen
       rcases hen.2 with hh | hh
@@ -349,8 +373,8 @@ theorem inv_step (e : Env) (s : St) (op : Op) (hc : op.inContract = true) (h : I
     simp only [step]
     split
     · rename_i x hm hq
-      obtain ⟨h1, h2, h3, h4, h5, h6, h7⟩ := h
-      refine ⟨h1, h2, h3, h4, ?_, h6, h7⟩
+      obtain ⟨h1, h2, h3, h4, h5, h6, h7, h8, h9⟩ := h
+      refine ⟨h1, h2, h3, h4, ?_, h6, h7, h8, h9⟩
       intro b y
       have := h5 b y
       have ho := osum_set (ind e b y) s.matchers m none (some x) hm
@@ -362,8 +386,8 @@ theorem inv_step (e : Env) (s : St) (op : Op) (hc : op.inContract = true) (h : I
     simp only [step]
     split
     · rename_i i p hm
-      obtain ⟨h1, h2, h3, h4, h5, h6, h7⟩ := h
-      refine ⟨h1, h2, h3, h4, ?_, h6, h7⟩
+      obtain ⟨h1, h2, h3, h4, h5, h6, h7, h8, h9⟩ := h
+      refine ⟨h1, h2, h3, h4, ?_, h6, h7, h8, h9⟩
       intro b y
       have := h5 b y
       have ho := osum_set (ind e b y) s.matchers m (some (i, p)) none hm
@@ -417,6 +441,13 @@ theorem enabled_proc (s : St) (m : Nat) (h : enabled s (.proc m) = true) :
   · rename_i x hm; exact ⟨x, hm⟩
   · simp at h
 
+theorem enabled_abandon (s : St) (w : Nat) (h : enabled s (.abandon w) = true) :
+    ∃ r, s.workers[w]? = some (some r) ∧ s.cancelled = true := by
+  simp only [enabled] at h
+  split at h
+  · rename_i r hw; exact ⟨r, hw, h⟩
+  · simp at h
+
 theorem step_disabled (e : Env) (s : St) (op : Op) (hc : op.inContract = true) (h : enabled s op = false) :
     step e s op = s := by
   cases op with
@@ -432,6 +463,14 @@ theorem step_disabled (e : Env) (s : St) (op : Op) (hc : op.inContract = true) (
     · rfl
   | respRaw w k => simp [Op.inContract] at hc
   | err w => rfl
+  | abandon w =>
+    simp only [enabled] at h
+    simp only [step]
+    split
+    · rename_i r hw
+      simp only [hw] at h
+      simp [h]
+    · rfl
   | grow n => simp only [enabled] at h; simp [step, h]
   | stop => simp [enabled] at h
   | cancel => simp [enabled] at h
@@ -451,7 +490,7 @@ theorem step_disabled (e : Env) (s : St) (op : Op) (hc : op.inContract = true) (
 
 theorem step_measure (e : Env) (s : St) (op : Op) (hc : op.inContract = true) :
     (if enabled s op && op.isProgress then 1 else 0) + scanMeasure (step e s op)
-      ≤ scanMeasure s + 4 * ((step e s op).end_ - s.end_) ∧ s.end_ ≤ (step e s op).end_ := by
+      ≤ scanMeasure s + 5 * ((step e s op).end_ - s.end_) ∧ s.end_ ≤ (step e s op).end_ := by
   cases hen : enabled s op with
   | false => rw [step_disabled e s op hc hen]; simp
   | true =>
@@ -462,6 +501,8 @@ theorem step_measure (e : Env) (s : St) (op : Op) (hc : op.inContract = true) :
       simp only [handEnabled, Bool.and_eq_true, Bool.not_eq_true', decide_eq_true_eq, beq_iff_eq] at hen2
       obtain ⟨⟨⟨hcl, hw⟩, hc⟩, hb⟩ := hen2
       have hr := remaining_set s.workers w none (some (s.cursor, batchEnd s)) hw
+      have hbw := busy_set s.workers w none (some (s.cursor, batchEnd s)) hw
+      simp at hbw
       simp only [rem1] at hr
       have hbe : s.cursor < batchEnd s ∧ batchEnd s ≤ s.end_ := by simp only [batchEnd]; omega
       simp only [step, hen', if_true, scanMeasure, hcl, Op.isProgress, Bool.and_self]
@@ -472,13 +513,24 @@ theorem step_measure (e : Env) (s : St) (op : Op) (hc : op.inContract = true) :
       obtain ⟨lo, hi, hw, hk1, hk2⟩ := enabled_resp s w k hen
       have hr := remaining_set s.workers w (some (lo, hi)) (if lo + k < hi then some (lo + k, hi) else none) hw
       have hk : 1 ≤ k ∧ lo + k ≤ hi := ⟨hk1, hk2⟩
+      have hbw := busy_set s.workers w (some (lo, hi)) (if lo + k < hi then some (lo + k, hi) else none) hw
       simp only [step, hw, hk, and_self, if_true, deliver, scanMeasure, List.length_append, batchOf_length, Op.isProgress, Bool.and_self]
       refine ⟨?_, Nat.le_refl _⟩
       by_cases hlt : lo + k < hi
-      · simp only [hlt, if_true, rem1] at hr ⊢; omega
-      · simp only [hlt, if_false, rem1] at hr ⊢; omega
+      · simp only [hlt, if_true, rem1] at hr hbw ⊢; simp at hbw; omega
+      · simp only [hlt, if_false, rem1] at hr hbw ⊢; simp at hbw; omega
     | respRaw w k => simp [Op.inContract] at hc
     | err w => simp [step, Op.isProgress]
+    | abandon w =>
+      obtain ⟨r, hw, hcan⟩ := enabled_abandon s w hen
+      obtain ⟨lo, hi⟩ := r
+      have hr := remaining_set s.workers w (some (lo, hi)) none hw
+      have hbw := busy_set s.workers w (some (lo, hi)) none hw
+      simp at hbw
+      simp only [rem1] at hr
+      simp only [step, hw, hcan, if_true, scanMeasure, Op.isProgress, Bool.and_self]
+      refine ⟨?_, Nat.le_refl _⟩
+      omega
     | grow n =>
       have hen' : growEnabled s n = true := hen
       have hen2 := hen'
@@ -529,7 +581,7 @@ theorem end_mono_run (e : Env) (s : St) (ops : List Op) (hc : ops.all Op.inContr
     exact Nat.le_trans (step_measure e s op hc.1).2 (ih (step e s op) hc.2)
 
 theorem run_measure (e : Env) (s : St) (ops : List Op) (hc : ops.all Op.inContract = true) :
-    progressCount e s ops + scanMeasure (run e s ops) ≤ scanMeasure s + 4 * ((run e s ops).end_ - s.end_) := by
+    progressCount e s ops + scanMeasure (run e s ops) ≤ scanMeasure s + 5 * ((run e s ops).end_ - s.end_) := by
   induction ops generalizing s with
   | nil => simp [progressCount, run]
   | cons op t ih =>
@@ -538,7 +590,7 @@ theorem run_measure (e : Env) (s : St) (ops : List Op) (hc : ops.all Op.inContra
     have h2 := ih (step e s op) hc.2
     have h3 := end_mono_run e (step e s op) t hc.2
     simp only [progressCount]
-    show _ + scanMeasure (run e (step e s op) t) ≤ _ + 4 * ((run e (step e s op) t).end_ - s.end_)
+    show _ + scanMeasure (run e (step e s op) t) ≤ _ + 5 * ((run e (step e s op) t).end_ - s.end_)
     omega
 
 theorem allIdle_get {α} (l : List (Option α)) (h : allIdle l = true) (m : Nat) (o : Option α)
@@ -612,24 +664,39 @@ theorem progress (e : Env) (s : St) (h : Inv e s) (hq : quiescent s = false)
 /-- from the invariant alone: with no fetch pending, the delivered indices are exactly `start0 … cursor-1`; and if the
 generator has finished without having been asked to stop, that is all of `[start0, end)` -/
 theorem inv_idle (e : Env) (s : St) (h : Inv e s) (hi : allIdle s.workers = true) :
-    (∀ i, cnt s.delivered i = inR s.start0 s.cursor i) ∧
+    (∀ i, cnt s.delivered i + acnt s.abandoned i = inR s.start0 s.cursor i) ∧
+    (s.stopReq = false → ∀ i, cnt s.delivered i = inR s.start0 s.cursor i) ∧
     (s.closed = true → s.stopReq = false → ∀ i, cnt s.delivered i = inR s.start0 s.end_ i) := by
-  have key : ∀ i, cnt s.delivered i + inR s.cursor s.end_ i = inR s.start0 s.end_ i := by
+  have key : ∀ i, cnt s.delivered i + acnt s.abandoned i + inR s.cursor s.end_ i = inR s.start0 s.end_ i := by
     intro i
     have hcount := h.count i
     rw [pend_allIdle s.workers i hi] at hcount
     omega
   have hle := h.start_le
   have hcl := h.cursor_le
-  constructor
-  · intro i
+  have hab : s.stopReq = false → s.abandoned = [] := by
+    intro hs
+    cases ha : s.abandoned with
+    | nil => rfl
+    | cons a t =>
+      have := h.cancel_stop (h.aband_ok (by simp [ha]))
+      rw [hs] at this; cases this
+  have first : ∀ i, cnt s.delivered i + acnt s.abandoned i = inR s.start0 s.cursor i := by
+    intro i
     have := key i
     have a1 := ite01 s.cursor s.end_ i
     have a2 := ite01 s.start0 s.end_ i
     have a3 := ite01 s.start0 s.cursor i
     omega
+  refine ⟨first, ?_, ?_⟩
+  · intro hs i
+    have := first i
+    rw [hab hs] at this
+    simpa [acnt] using this
   · intro hclosed hstop i
     have := key i
+    rw [hab hstop] at this
+    simp only [acnt] at this
     have hok := h.closed_ok hclosed
     have a1 := ite01 s.cursor s.end_ i
     rcases hok with hok | hok
@@ -654,6 +721,60 @@ theorem worker_in_range (e : Env) (s : St) (h : Inv e s) (w lo hi : Nat) (hw : s
   have a1 := ite01 s.start0 s.end_ lo
   have a2 := ite01 s.start0 s.end_ (hi - 1)
   omega
+
+/-! ### cancellation ends the fetch without any answer from the server -/
+
+/-- ops a cancelled fetch needs to finish: workers giving up, the generator exiting -/
+def Op.isGiveUp : Op → Bool
+  | .abandon _ | .close => true
+  | _ => false
+
+theorem cancel_step (e : Env) (s : St) (h : Inv e s) (hc : s.cancelled = true)
+    (hq : (s.closed && allIdle s.workers) = false) :
+    ∃ op, op.isGiveUp = true ∧ op.inContract = true ∧ enabled s op = true ∧ scanMeasure (step e s op) < scanMeasure s := by
+  by_cases hwi : allIdle s.workers = true
+  · have hcl : s.closed = false := by simpa [hwi] using hq
+    have hst := h.cancel_stop hc
+    have hen : enabled s .close = true := by simp [enabled, closeEnabled, hcl, hst]
+    have := (step_measure e s .close rfl).1
+    simp only [hen, Op.isProgress, Bool.and_self, if_true] at this
+    have he : (step e s .close).end_ = s.end_ := by simp [step, closeEnabled, hcl, hst]
+    rw [he] at this
+    exact ⟨.close, rfl, rfl, hen, by omega⟩
+  · obtain ⟨w, r, hr⟩ := exists_busy s.workers (by simpa using hwi)
+    have hen : enabled s (.abandon w) = true := by simp [enabled, hr, hc]
+    have := (step_measure e s (.abandon w) rfl).1
+    simp only [hen, Op.isProgress, Bool.and_self, if_true] at this
+    have he : (step e s (.abandon w)).end_ = s.end_ := by simp [step, hr, hc]
+    rw [he] at this
+    exact ⟨.abandon w, rfl, rfl, hen, by omega⟩
+
+theorem cancel_terminates_aux (e : Env) (n : Nat) : ∀ (s : St), Inv e s → s.cancelled = true → scanMeasure s ≤ n →
+    ∃ ops : List Op, ops.all Op.isGiveUp = true ∧ ops.length ≤ n ∧
+      (run e s ops).closed = true ∧ allIdle (run e s ops).workers = true := by
+  induction n with
+  | zero =>
+    intro s h hc hm
+    cases hq : (s.closed && allIdle s.workers) with
+    | true =>
+      simp only [Bool.and_eq_true] at hq
+      exact ⟨[], rfl, Nat.le_refl _, hq.1, hq.2⟩
+    | false =>
+      obtain ⟨op, _, _, _, hlt⟩ := cancel_step e s h hc hq
+      omega
+  | succ n ih =>
+    intro s h hc hm
+    cases hq : (s.closed && allIdle s.workers) with
+    | true =>
+      simp only [Bool.and_eq_true] at hq
+      exact ⟨[], rfl, Nat.zero_le _, hq.1, hq.2⟩
+    | false =>
+      obtain ⟨op, hg, hic, hen, hlt⟩ := cancel_step e s h hc hq
+      have hinv := inv_step e s op hic h
+      have hc' : (step e s op).cancelled = true := by
+        cases op <;> simp [Op.isGiveUp] at hg <;> simp only [step] <;> (repeat' split) <;> simp_all
+      obtain ⟨ops, ha, hl, h1, h2⟩ := ih (step e s op) hinv hc' (by omega)
+      exact ⟨op :: ops, by simp [hg, ha], by simp; omega, h1, h2⟩
 
 /-! ### fields that never change, and payload counting -/
 
